@@ -32,9 +32,14 @@ RULE = ("Hypothesis command lists (1-3 PLAY statements, <= 40 commands) over not
         "=VARPTR$; rendered with random case/blanks/semicolons; a malformed command (out-of-range "
         "number, unknown letter, missing number, double semicolon, G=VAR;, bad M mode) may be "
         "inserted at a random position; plus an exhaustive table: every note letter x accidental x "
-        "octave and every N0..84, every L1..64 and T32..255 on a dotted note, every mode x dots. "
+        "octave and every N0..84, every L1..64 and T32..255 on a dotted note, every mode x dots, every "
+        "state setter x {nothing, SOUND f,0, SOUND f,d, BEEP, CLEAR, RUN, NEW} x a following PLAY; "
+        "sequences: 3-11 statements (state-setting and note-playing PLAY statements with SOUND/BEEP/"
+        "CLEAR/RUN/NEW - on Tandy also SOUND ON/OFF, NOISE - in between), state carried by the model. "
         "Non-trivial: the statement list has a dotted or explicit-length note and a mode, octave or "
-        "tempo change, or a malformed command after at least one tone; distinct = distinct case.")
+        "tempo change, or a malformed command after at least one tone, or PLAY state set by one "
+        "statement is carried over another sound statement / reset by CLEAR, RUN, NEW before a later "
+        "PLAY; distinct = distinct case.")
 ASSUMPTIONS = [
     "frequency: the statement's 'note number n' is read as the 0-based index into the equal-tempered "
     "table, i = octave*12 + semitone (C=0) = N-1, f = 440*2^((i-33)/12): the only reading under which "
@@ -51,6 +56,12 @@ ASSUMPTIONS = [
     "synchronisation events inserted at the start of a statement are only required to be silent, "
     "and notes below 110 Hz are not generated (hardware clamp)",
     "a string variable in a numeric position: Type mismatch (manual)",
+    "PLAY state (octave, L, tempo, MN/ML/MS) is the *current* setting until changed (manual: 'set "
+    "the current octave', defaults only named as defaults) and is reset by CLEAR ('Resets PLAY "
+    "state'), RUN ('implies CLEAR') and NEW ('executes CLEAR') - nothing else is documented to "
+    "reset it, so SOUND f,d (also d=0), BEEP, NOISE and SOUND ON/OFF in between must leave it alone. "
+    "The tones of SOUND f,d (f Hz, d/18.2 s within 1e-3, f=0 a silence) and BEEP (800 Hz, 0.25 s) "
+    "are checked as documented; NOISE events are ignored",
     "blanks between commands and between a command letter, its accidental, its number and its dots "
     "are generated and asserted to be ignored (ubiquitous in real MML; GW-BASIC ignores blanks); "
     "blanks BETWEEN THE DIGITS of one number (T2 55, N1 2) are generated in 1 case of 5 but NOT "
@@ -391,14 +402,72 @@ def check_case(case):
             setup.append('%s=%d' % (name, v))
         for name, cmds in sorted(subs.items()):
             setup.append('%s="%s"' % (name, plain_text(cmds, style)))
-        o = sess.execute(':'.join(setup).encode())
-        if o.kind != 'ok' or o.errors:
-            res.fail('unexpected-outcome', 'setup %r: %r' % (setup, o))
+
+        def do_setup():
+            o = sess.execute(':'.join(setup).encode())
+            if o.kind != 'ok' or o.errors:
+                res.fail('unexpected-outcome', 'setup %r: %r' % (setup, o))
+                return False
+            return True
+        if not do_setup():
             return res
         had_tone = False
-        summary = {'dotted': False, 'explicit': False, 'change': False, 'malformed_after_tone': False}
+        sound_on = tandy        # Tandy starts with SOUND ON
+        state_set = False       # a PLAY changed octave/length/tempo/articulation since the last reset
+        summary = {'dotted': False, 'explicit': False, 'change': False, 'malformed_after_tone': False,
+                   'state-carried-over-other-sound-statement': False,
+                   'state-reset-by-clear-run-new': False}
         for stmt in case['plays']:
+            if isinstance(stmt, dict):
+                # a statement between PLAY statements
+                kind = stmt['st']
+                if kind == 'noise' and not sound_on:
+                    continue
+                text = inter_text(stmt)
+                n0 = len(audio.items)
+                o = sess.execute(text.encode())
+                if o.kind == 'escaped':
+                    res.fail('escaped.%s@%s' % (o.exc, o.frame), '%s\n%s' % (text, o.tb))
+                    return res
+                if o.kind == 'budget':
+                    res.inconclusive = True
+                    return res
+                if o.kind != 'ok' or o.errors:
+                    res.fail('unexpected-outcome', '%s: %r' % (text, o))
+                    return res
+                got = [e.params for e in audio.items[n0:] if e.event_type == signals.AUDIO_TONE]
+                res.label('inter-' + kind)
+                if kind in ('clear', 'run', 'new'):
+                    # manual: CLEAR resets the PLAY state; RUN implies CLEAR; NEW executes CLEAR
+                    states = [RefState() for _ in range(nvoices)]
+                    if state_set:
+                        summary['state-reset-by-clear-run-new'] = True
+                    state_set = False
+                    if not do_setup():
+                        return res
+                else:
+                    # SOUND, BEEP, NOISE, SOUND ON/OFF are not documented to touch the PLAY state
+                    if state_set:
+                        summary['state-carried-over-other-sound-statement'] = True
+                    if kind == 'soundon':
+                        sound_on = True
+                    elif kind == 'soundoff':
+                        sound_on = False
+                    elif kind == 'sound' and stmt['d'] > 0:
+                        # manual: frequency Hz for duration/18.2 seconds (0: silence of that length)
+                        exp1 = [(0, float(stmt['f']), Fraction(stmt['d'] * 10, 182),
+                                 'tone' if stmt['f'] else 'pause')]
+                        if not compare(res, text, got, exp1, 'sound', dur_rel=1e-3):
+                            return res
+                    elif kind == 'beep':
+                        # manual: 800 Hz for 0.25 s
+                        if not compare(res, text, got, [(0, 800.0, Fraction(1, 4), 'tone')], 'beep'):
+                            return res
+                continue
             voices = stmt if tandy else [stmt]
+            if any(c['c'] in ('O', 'L', 'T', '>', '<') or (c['c'] == 'M' and c['m'] in 'NLS')
+                   or c['c'] == 'X' for cmds in voices for c in cmds):
+                state_set = True
             exp = []
             errs = []
             for v, cmds in enumerate(voices):
@@ -490,7 +559,9 @@ def check_case(case):
                     if exp[0]:
                         had_tone = True
         res.nt(((summary['dotted'] or summary['explicit']) and summary['change'])
-               or summary['malformed_after_tone'])
+               or summary['malformed_after_tone']
+               or summary['state-carried-over-other-sound-statement']
+               or summary['state-reset-by-clear-run-new'])
         for k, v in sorted(summary.items()):
             if v:
                 res.label(k)
@@ -513,7 +584,17 @@ def scan_summary(cmds, subs, summary):
             scan_summary(subs[c['s']], subs, summary)
 
 
-def compare(res, stmt_text, got, exp, tag):
+def inter_text(stmt):
+    kind = stmt['st']
+    if kind == 'sound':
+        return 'SOUND %d,%d' % (stmt['f'], stmt['d'])
+    return {'beep': 'BEEP', 'clear': 'CLEAR', 'run': 'RUN', 'new': 'NEW', 'soundon': 'SOUND ON',
+            'soundoff': 'SOUND OFF',
+            'noise': 'NOISE %d,%d,%d' % (stmt.get('src', 0), stmt.get('vol', 8), stmt.get('d', 3))
+            }[kind]
+
+
+def compare(res, stmt_text, got, exp, tag, dur_rel=1e-9):
     """got: list of params (voice, freq, dur, loop, volume); exp: (voice, freq, dur, kind)."""
     pre = ('%s ' % tag) if tag else ''
     for i, e in enumerate(exp):
@@ -539,7 +620,7 @@ def compare(res, stmt_text, got, exp, tag):
                 res.fail('%s.frequency' % kind, '%s%s: event %d %r expected silence %r' % (
                     pre, stmt_text, i, g, show(e)))
                 return False
-        if not close(g[2], d, 1e-9):
+        if not close(g[2], d, dur_rel):
             res.fail('%s.duration' % kind, '%s%s: event %d duration %r expected %s = %r (%r)' % (
                 pre, stmt_text, i, g[2], d, float(d), g))
             return False
@@ -615,7 +696,7 @@ def strat_case():
                     st.tuples(st.sampled_from(BAD_TEXTS), st.integers(0, 40)))
     style = st.lists(st.integers(0, 1000), min_size=1, max_size=8)
 
-    def build(plays, s1, s2, bad_, style_, ss1, ss2, runs, db=False):
+    def build(plays, s1, s2, bad_, style_, ss1, ss2, runs, db=False, gaps=()):
         plays = [list(p) for p in plays]
         # runs of < or > past both ends of the octave range
         if runs is not None:
@@ -629,6 +710,13 @@ def strat_case():
             pos = (at // 3) % (len(p) + 1)
             p.insert(pos, {'c': 'bad', 'text': text, 'code': code})
         plays[0] = [{'c': 'M', 'm': 'B'}] + plays[0]
+        if gaps:
+            seq = []
+            for i, p in enumerate(plays):
+                seq.append(p)
+                if i + 1 < len(plays):
+                    seq.extend(gaps[i % len(gaps)])
+            plays = seq
         case = {'plays': plays, 'subs': {'S1$': s1, 'S2$': s2},
                 'substyle': {'S1$': ss1, 'S2$': ss2}, 'style': style_}
         if db:
@@ -638,14 +726,62 @@ def strat_case():
                      st.sampled_from(['name', 'vp']), st.sampled_from(['name', 'vp']),
                      st.one_of(st.none(), st.tuples(st.sampled_from(['<', '>']), st.integers(3, 9),
                                                     st.integers(0, 60))),
-                     st.sampled_from([False, False, False, False, True]))
+                     st.sampled_from([False, False, False, False, True]),
+                     st.lists(st.lists(st_inter(), max_size=2), max_size=2))
+
+
+def st_inter(tandy=False):
+    """Statements between PLAY statements."""
+    freq = st.sampled_from([0, 110, 440, 523, 1000, 2000, 37 if not tandy else 150, 32000])
+    alts = [
+        st.builds(lambda f_, d: {'st': 'sound', 'f': f_, 'd': d}, freq,
+                  st.sampled_from([0, 0, 0, 1, 2, 5, 18])),
+        st.just({'st': 'beep'}),
+        st.sampled_from([{'st': 'clear'}, {'st': 'run'}, {'st': 'new'}]),
+    ]
+    if tandy:
+        alts += [st.just({'st': 'soundon'}), st.just({'st': 'soundoff'}),
+                 st.builds(lambda s, v, d: {'st': 'noise', 'src': s, 'vol': v, 'd': d},
+                           st.integers(0, 7), st.integers(0, 15), st.integers(1, 9))]
+    return st.one_of(*alts)
+
+
+def st_setter():
+    """A command that changes the PLAY state."""
+    return st.one_of(
+        st.builds(lambda v: {'c': 'O', 'v': v}, st.sampled_from([0, 1, 2, 3, 5, 6])),
+        st.builds(lambda v: {'c': 'L', 'v': v}, st.sampled_from([1, 2, 8, 16, 3, 64])),
+        st.builds(lambda v: {'c': 'T', 'v': v}, st.sampled_from([32, 60, 200, 255, 99])),
+        st.builds(lambda m: {'c': 'M', 'm': m}, st.sampled_from(['S', 'L', 'S', 'L', 'N', 'F', 'B'])),
+        st.sampled_from([{'c': '>'}, {'c': '<'}]),
+    )
+
+
+def strat_sequence():
+    """Sequences of statements: short PLAY statements that set state or play notes relying on
+    the state set by an earlier one, with other sound statements / CLEAR, RUN, NEW in between."""
+    notecmd = st_cmd(False)
+    play = st.one_of(
+        st.lists(st_setter(), min_size=1, max_size=4),
+        st.lists(st.one_of(notecmd, notecmd, st_setter()), min_size=1, max_size=5).map(_fix_bad_acc),
+    )
+    item = st.one_of(play, play, play, st_inter())
+    style = st.lists(st.integers(0, 1000), min_size=1, max_size=6)
+
+    def build(items, style_):
+        items = [list(x) if isinstance(x, list) else x for x in items]
+        # background mode first, and a note at the very end that shows the accumulated state
+        seq = [[{'c': 'M', 'm': 'B'}]] + items + [[{'c': 'note', 'n': 'E', 'dots': 1}]]
+        return {'plays': seq, 'subs': {'S1$': [], 'S2$': []},
+                'substyle': {'S1$': 'name', 'S2$': 'name'}, 'style': style_}
+    return st.builds(build, st.lists(item, min_size=2, max_size=9), style)
 
 
 def strat_tandy():
     body = st.lists(st_cmd(False, lowoct=2), min_size=0, max_size=6).map(_fix_bad_acc)
     style = st.lists(st.integers(0, 1000), min_size=1, max_size=6)
 
-    def build(plays, style_):
+    def build(plays, style_, inters):
         plays = [[list(v) for v in p] for p in plays]
         plays[0][0] = [{'c': 'M', 'm': 'B'}] + plays[0][0]
         if not any(plays[0]):
@@ -653,8 +789,14 @@ def strat_tandy():
         for p in plays:
             if not any(p):
                 p[1].append({'c': 'note', 'n': 'E', 'dots': 0})
-        return {'plays': plays, 'subs': {}, 'substyle': {}, 'style': style_, 'syntax': 'tandy'}
-    return st.builds(build, st.lists(st.tuples(body, body, body), min_size=1, max_size=2), style)
+        seq = []
+        for i, p in enumerate(plays):
+            seq.append(p)
+            if i + 1 < len(plays):
+                seq.extend(inters[i % len(inters)] if inters else [])
+        return {'plays': seq, 'subs': {}, 'substyle': {}, 'style': style_, 'syntax': 'tandy'}
+    return st.builds(build, st.lists(st.tuples(body, body, body), min_size=1, max_size=3), style,
+                     st.lists(st.lists(st_inter(True), max_size=2), max_size=2))
 
 
 def gen_tables(shard, nshards, tier, seed):
@@ -705,6 +847,20 @@ def gen_tables(shard, nshards, tier, seed):
                                  {'c': 'bad', 'text': text, 'code': code},
                                  {'c': 'note', 'n': 'D', 'dots': 0}],
                                 [{'c': 'note', 'n': 'E', 'dots': 0}]], 'style': [0]})
+    # PLAY state across statements: every setter x every statement in between x a note
+    setters = [[{'c': 'O', 'v': 2}], [{'c': 'L', 'v': 16}], [{'c': 'T', 'v': 200}],
+               [{'c': 'M', 'm': 'S'}], [{'c': 'M', 'm': 'L'}], [{'c': '>'}, {'c': '>'}],
+               [{'c': 'O', 'v': 1}, {'c': 'L', 'v': 2}, {'c': 'T', 'v': 60}, {'c': 'M', 'm': 'S'}]]
+    inters = [None, {'st': 'sound', 'f': 440, 'd': 0}, {'st': 'sound', 'f': 440, 'd': 3},
+              {'st': 'sound', 'f': 0, 'd': 2}, {'st': 'beep'}, {'st': 'clear'}, {'st': 'run'},
+              {'st': 'new'}]
+    for si, setter in enumerate(setters):
+        for it in inters:
+            seq = [[MB] + setter]
+            if it is not None:
+                seq.append(it)
+            seq.append([MB, {'c': 'note', 'n': 'E', 'dots': 1}, {'c': 'N', 'v': 40, 'dots': 0}])
+            cases.append({'plays': seq, 'style': [si]})
     for i, c in enumerate(cases):
         c.setdefault('subs', {})
         c.setdefault('substyle', {})
@@ -715,8 +871,10 @@ def gen_tables(shard, nshards, tier, seed):
 def units(tier):
     return [
         Unit('tables', 'enum', shards={'quick': 2, 'thorough': 8}, gen=gen_tables, exhaustive=(tier == 'thorough')),
-        Unit('strings', 'hyp', shards={'quick': 8, 'thorough': 16}, examples={'quick': 400, 'thorough': 12500},
+        Unit('strings', 'hyp', shards={'quick': 8, 'thorough': 16}, examples={'quick': 300, 'thorough': 12500},
              strategy=strat_case),
+        Unit('sequences', 'hyp', shards={'quick': 4, 'thorough': 16},
+             examples={'quick': 300, 'thorough': 6000}, strategy=strat_sequence),
         Unit('three-voice', 'hyp', shards={'quick': 2, 'thorough': 8}, examples={'quick': 160, 'thorough': 2500},
              strategy=strat_tandy),
     ]
@@ -744,6 +902,10 @@ KILLS = [
     "sound.play_: pause emitted with the note fill -> pause.duration",
     "sound.play_: X substring inserted after the rest of the string -> events.extra/missing, "
     "tone.frequency, tone.duration (strings)",
+    "sound.stop_all_sound also calls reset_play() (and _clear_all no longer does): SOUND f,0 / "
+    "SOUND ON/OFF between PLAY statements reset octave/L/T/articulation -> tone.frequency, "
+    "tone.duration, pause.duration in tables (setter x inter family), sequences, strings and "
+    "three-voice (survived while cases had nothing between their PLAY statements)",
     "NOT ASSERTED: mlparser._parse_literal stopping at a blank inside a number (T2 55) - the "
     "statement and the manual are silent on blanks between digits; such strings are generated and "
     "labelled (blank-inside-number / -rejected), a rejection is accepted",
